@@ -167,6 +167,22 @@ PROPS["C07"] = {
 }
 
 
+PROPS["C16"] = {
+    "level": "exploration",
+    "budget_s": {"quick": 70, "thorough": 2400},
+    "modes": [{"name": "", "runs": {"quick": 900, "thorough": 25000}, "chunk": 50},
+              {"name": "faults", "runs": {"quick": 300, "thorough": 8000}, "chunk": 50}],
+    "rule": ("one run = a name pool drawn from ~50 adversarial strings (empty, one rune, 4-byte runes, combining marks vs precomposed, case and trailing-space variants, control characters, RTL, 64 KiB, names equal to namespace/relation names, URL/SQL metacharacters) "
+             "plus up to 260 generated names, and a batch of 1..250 tuples with repeats and the same string as object and subject. Checked: Mapper.FromTuple->ToTuple position by position, Map(s)=Map(s') <=> s=s', MapUUIDsToStrings with repeated ids, FromQuery->ToQuery, ToTree; "
+             "then the batch is written through gRPC transact / REST patch / REST create and listed back (page sizes 0,1,100,101,250; REST and gRPC), listed by an adversarial object name, and expanded; strings must come back exactly, in the right fields. "
+             "mode 'faults': one of the first 4 SQL statements of the listing fails (I/O): the read may fail, it may not return an empty or foreign string. non-trivial = >=3 distinct names; distinct = hash of the batch."),
+    "probes": ["probe_over_100_distinct_names", "probe_batch_over_100", "probe_repeats_in_batch"],
+    "real": REAL_S, "stub": STUB_S,
+    "fault_kinds": {"io": "a SQL statement of the listing (tuple query or mapping lookup) returns an I/O error"},
+    "assumptions": ["names are valid UTF-8 without NUL (JSON and protobuf cannot carry anything else)"],
+}
+
+
 def evidence(prop, spec, tier, seed, records, deaths, unfinished, planned, wall_s, sim_wall_s, build_s, nworkers, n_new, known_hits):
     runs = 0
     execs = 0
@@ -253,6 +269,9 @@ def evidence(prop, spec, tier, seed, records, deaths, unfinished, planned, wall_
 
 SIM = "deterministic simulation with fault injection"
 MANIFEST_TEXT = {
+ "C16": {"text": "seeded batches of adversarial names through the real mapper (round trips position by position) and through the write and read APIs, with an I/O fault variant on the mapping lookups",
+         "note": "valid UTF-8, NUL-free names; SQLite only",
+         "technique": SIM + ": generated batches across the internal paging boundaries, model comparison, SQL-statement fault injection"},
  "C01": {"text": "seeded search over generated (config, store, query) cases x release orders of the engine's concurrent storage calls x storage orders, each compared with an independent stratified Zanzibar evaluator; sampling, not proof",
          "note": "trusts the reference evaluator sim/ref.go, SQLite and the Go runtime between two storage calls; only the sqlite dialect runs; limits non-binding by the reference's criterion",
          "technique": SIM + ": seeded scheduler at the storage seam inside a synctest bubble, reference-model oracle"},
